@@ -37,12 +37,23 @@ def sx(s):
     return hx(s.encode("utf-8"))
 
 
+# "alternative input forms": while ALT[0] is set (only inside run_alt), byte-string arguments are handed to the library
+# as bytearray and index paths as one-shot iterators — values the unchanged library accepts and must treat alike
+ALT = [False]
+
+
 def unhex(s):
-    return b"" if s == "-" else bytes.fromhex(s)
+    b = b"" if s == "-" else bytes.fromhex(s)
+    return bytearray(b) if ALT[0] else b
 
 
 def unstr(s):
-    return unhex(s).decode("utf-8")
+    return bytes(unhex(s)).decode("utf-8")
+
+
+def _seq(xs):
+    """an index path as the library receives it: a list, or (alternative form) a single-pass iterator"""
+    return iter(list(xs)) if ALT[0] else xs
 
 
 def unbool(s):
@@ -269,7 +280,7 @@ def _run(tok):
     if op == "ckd":
         nd = unnode(a[0])
         with _Prf(a[2]):
-            return nodeS(nd.derive_path(unlist(int, a[1])))
+            return nodeS(nd.derive_path(_seq(unlist(int, a[1]))))
     if op == "i2be":
         return hx(helper.int_to_big_endian(int(a[0]), int(a[1])))
     if op == "i2le":
@@ -303,7 +314,7 @@ def _run(tok):
             return nodeS(bip32.PrvKeyNode.master_key(bip39_seed=unhex(a[0]), testnet=unbool(a[1])))
     # C07
     if op == "xk_ser":
-        nd = unnode(a[0]).derive_path(unlist(int, a[1]))
+        nd = unnode(a[0]).derive_path(_seq(unlist(int, a[1])))
         ver = None if a[3] == "-" else int(a[3])
         if a[2] == "pub":
             return sx(nd.extended_public_key(version=ver))
@@ -314,7 +325,7 @@ def _run(tok):
         if a[2] == "s":
             return nodeS(klass.parse(unstr(a[3]), testnet=t))
         if a[2] == "b":
-            return nodeS(klass.parse(unhex(a[3]), testnet=t))
+            return nodeS(klass.parse(bytes(unhex(a[3])), testnet=t))     # parse() dispatches on the exact type bytes
         st = io.BytesIO(unhex(a[3]))
         if a[2].startswith("io@"):
             st.read(int(a[2][3:]))      # stream positioned after earlier records / a header
@@ -677,7 +688,7 @@ class HistCtx:
             return "L " + " / ".join(nodeS(c) for c in cs)
         if k == "dp":
             par = self.nodes[int(t[1])]
-            return self._new(par.derive_path(unlist(int, t[2])), par)
+            return self._new(par.derive_path(_seq(unlist(int, t[2]))), par)
         if k == "ad":
             return "t" + sx(_none_err(addr_fn(w, t[2])(self.nodes[int(t[1])])))
         if k == "xk":
@@ -731,6 +742,15 @@ def _bip85_call(b, app, param, index):
 
 class BadOp(Exception):
     pass
+
+
+def run_alt(line):
+    """the same operation with byte strings as bytearray and paths as iterators"""
+    ALT[0] = True
+    try:
+        return run(line)
+    finally:
+        ALT[0] = False
 
 
 def run(line):
